@@ -7,14 +7,6 @@ import (
 
 var vcAllOps = []int{vcCreate, vcMarkComplete, vcDelete, vcBan, vcUnban, vcSetMd, vcDelMd, vcOpen}
 
-// vcExcludeKnown removes the scenarios written up in FINDINGS.md from the
-// harnesses that are expected to pass; each exclusion is checked on its own by
-// a VerifFinding… harness.
-func vcExcludeKnown(sc *vcScenario) {
-	verif.Assume(!sc.knownFindingA())
-	verif.Note("excluded: RebootIncompleteBlobs=true with a crash inside Create of a new key or inside Delete of an incomplete blob (FINDINGS.md F1/F2, VerifFindingCrashLeavesIncompleteWithoutSize)")
-}
-
 func vcChooseConfig() vcConfig {
 	return vcConfig{reboot: verif.Choice("reboot_incomplete", 2) == 1, shard: verif.Choice("shard_length", 2)}
 }
@@ -53,7 +45,6 @@ func VerifDiskCrashOneOp() {
 	prefix := vcMenuPrefix()
 	last := vcChooseOp(vcAllOps, 2)
 	sc := vcExecute(cfg, prefix, last, false)
-	vcExcludeKnown(sc)
 	sc.check()
 }
 
@@ -78,14 +69,13 @@ func VerifDiskCrashHistory() {
 	}
 	last := vcChooseOp(vcAllOps, 2)
 	sc := vcExecute(cfg, prefix, last, false)
-	vcExcludeKnown(sc)
 	sc.check()
 }
 
 // vcRemoveOrder: Delete and eviction of blobs whose directory holds several
 // files (data, ban flag, metadata, size), with a crash before every unlink and
 // every order in which the directory entries may be removed.
-func vcRemoveOrder(excludeB bool) {
+func vcRemoveOrder() {
 	vcSymbolicUnlinkOrder = true
 	cfg := vcChooseConfig()
 	var prefix []vcOp
@@ -105,24 +95,18 @@ func vcRemoveOrder(excludeB bool) {
 		last = vcOp{code: vcDelete, k: 0}
 	}
 	sc := vcExecute(cfg, prefix, last, false)
-	vcExcludeKnown(sc)
-	if excludeB {
-		verif.Assume(!sc.knownFindingB())
-		verif.Note("excluded: crash inside RemoveAll of a complete blob directory (FINDINGS.md F3, VerifFindingCrashHalfRemovedBlobDir)")
-	}
 	sc.check()
 }
 
-// VerifDiskCrashRemoveOrder: the part of vcRemoveOrder that is expected to
-// hold on the current tree.
-func VerifDiskCrashRemoveOrder() { vcRemoveOrder(true) }
+// VerifDiskCrashRemoveOrder: see vcRemoveOrder.
+func VerifDiskCrashRemoveOrder() { vcRemoveOrder() }
 
 // VerifFindingCrashHalfRemovedBlobDir: FINDINGS.md F3. A crash inside the
 // RemoveAll of a complete blob directory after the data file is unlinked and
 // before the directory is empty leaves complete/<key>/ behind; recovery skips
 // it, and the key can never be completed again (rename onto a non-empty
 // directory fails).
-func VerifFindingCrashHalfRemovedBlobDir() { vcRemoveOrder(false) }
+func VerifFindingCrashHalfRemovedBlobDir() { vcRemoveOrder() }
 
 // VerifFindingCrashLeavesIncompleteWithoutSize: FINDINGS.md F1/F2. With
 // RebootIncompleteBlobs, a crash inside Create (data file created, _size
